@@ -211,13 +211,15 @@ def _run_one(target: str, fn: Callable[[str], Any], s: str, alarm: bool, seconds
                 raise TypeError("printed value is not a str")
         dump = _dump(target, v)
         stage = "reparse"
+        rejected = ""
         if target != "mraw":
             try:
                 fn(texts[0])
             except Exception as e2:  # noqa: BLE001
-                if not errclass(target, e2):
+                rejected = errclass(target, e2)
+                if not rejected:
                     raise
-        return {"cls": "ok", "text": texts[0], "dump": dump}
+        return {"cls": "ok", "text": texts[0], "dump": dump, "reprint_rejected": rejected}
 
     try:
         return with_cpu_alarm(body, seconds) if alarm else body()
@@ -226,6 +228,10 @@ def _run_one(target: str, fn: Callable[[str], Any], s: str, alarm: bool, seconds
     except Exception as e:  # noqa: BLE001
         ec = errclass(target, e)
         if ec and stage == "parse":
+            if ec == "syntax" and target == "marker" and _grammar_accepts(s):
+                # lark's error although the grammar accepts the INPUT: it comes from a marker text the simplifier printed and
+                # re-parsed (the defect class of repo fix 3046ca3)
+                return {"cls": "other", "etype": "internal-reparse", "site": site_of(e), "stage": stage, "msg": str(e)[:80].replace("\n", " ")}
             return {"cls": "doc", "err": ec}
         site = site_of(e)
         if isinstance(e, OSError) and e.errno is not None:
@@ -235,7 +241,20 @@ def _run_one(target: str, fn: Callable[[str], Any], s: str, alarm: bool, seconds
         return {"cls": "other", "etype": type(e).__name__, "site": site, "stage": stage, "msg": str(e)[:120]}
 
 
+def _grammar_accepts(s: str) -> bool:
+    from poetry.core.version import markers as MK
+    try:
+        MK._parser.parse(s)
+        return True
+    except Exception:  # noqa: BLE001
+        return False
+
+
 def violation_of(target: str, s: str, label: str, o: dict[str, Any]) -> tuple[str, str, dict[str, Any]] | None:
+    if o["cls"] == "ok" and target == "marker" and o.get("reprint_rejected"):
+        return (f"marker:reprint-rejected:{o['reprint_rejected']}",
+                f"parse_marker({_short(s)}) returns a marker whose printed text {_short(o['text'])} parse_marker rejects "
+                f"({o['reprint_rejected']}): the value cannot be printed", {"parser": target, "s": s, "label": label})
     if o["cls"] == "other":
         key = f"{target}:{o['etype']}:{o['site']}" + ("" if o["stage"] == "parse" else ":" + o["stage"])
         what = (f"{target} parser on {_short(s)} raised {o['etype']} ({o['msg']}) at {o['site']} during {o['stage']}; "
@@ -312,6 +331,8 @@ def impl_view(target: str, o: dict[str, Any]) -> list[str]:
     if o["cls"] == "doc":
         return ["err", o["err"]]
     if o["cls"] == "other":
+        if o["etype"] == "internal-reparse":
+            return ["err", "syntax"]      # the exception class the model reports as well; the oracle judges where it came from
         return ["err", V.ERRMAP.get(o["etype"], o["etype"])]
     return ["err", "timeout"]
 
@@ -651,6 +672,8 @@ def shrink_mapping(d: dict[str, Any], strict: bool, label: str, key: str, budget
 # ----------------------------------------------------------------------------------------------------------------
 
 CORPUS: list[tuple[str, str]] = [
+    ("marker", "os_name == 'a\"b'"), ("marker", "os_name == 'a\\'"), ("marker", 'os_name == "a\\"\'b"'), ("marker", "os_name == 'a\\' and os_name != 'b'"),
+    ("marker", "os_name == 'a\\\\b'"), ("marker", 'extra != "a" and extra != "b"'), ("requirement", "foo ; os_name == 'a\"b'"), ("dependency", "foo ; extra != 'a\"b'"),
     ("generic", "!==x"), ("generic", "\"a\" IN"), ("generic", "'a' not\tin"), ("vconstraint", "==1.0a1.dev0.*,<=1.0"),
     ("vconstraint", "==1.0.post1.dev0.*,>1.0.0"), ("vconstraint", "1.0 || 1.0+local"), ("dependency", "foo.tar.gz"), ("generic", "'x' IN"), ("generic", "'x' not\tin"), ("generic", "'x' in"), ("generic", "a, 'x' NOT IN"), ("generic", "==a || !=b,!=c"),
     ("generic", ""), ("generic", "*"), ("generic", "||"), ("generic", ","), ("generic", "'a' in, 'b' not in"), ("generic", "\"a\" in"),
